@@ -9,6 +9,7 @@ import (
 	"os/exec"
 	"path/filepath"
 	"strings"
+	"sync"
 	"time"
 
 	"verif/evid"
@@ -165,6 +166,7 @@ var c11TextForms = []string{
 	"get\r\n", "get \r\n", "get  \r\n", "get a  b\r\n", "gets a\r\n", "delete\r\n", "delete a b\r\n", "delete a 0\r\n", "touch\r\n", "touch a\r\n", "touch a b\r\n", "touch a -1\r\n", "touch a 4294967296\r\n",
 	"noop x\r\n", "quit x\r\n", "version x\r\n", "stats x\r\n", "\r\n", "\n", "\r", " \r\n", "\x00\r\n", "get a\rget b\r\n", "get a\n", "GET a\r\n", "incr a 1\r\n", "decr a 1\r\n", "cas a 0 0 1 1\r\nx\r\n",
 	"flush_all\r\n", "verbosity 1\r\n", "get " + strings.Repeat("k", 70000) + "\r\n", strings.Repeat("x", 70000), strings.Repeat("get a ", 5000) + "\r\n",
+	"get a\r\n\x80\x01\x00\x01\r\n", "set k 0 0 x\r\n\x80abc\r\n", "noop\r\n\x80", "get a\r\n\x81\r\nget b\r\n", "delete k\r\n\xff\xfe\r\n",
 	"set k 0 0 3\r\n\x80\x01\x00\r\n", "append k 0 0 0\r\n\r\n", "prepend k x y z\r\n", "get \x80\x00\r\n", "g", "ge", "get", "get a", "set k 0 0 2\r\n",
 }
 
@@ -245,7 +247,8 @@ func firstWord(in []byte) string {
 
 // c11Server sends malformed inputs to the real memproxy.
 func c11Server(run *evid.Run) {
-	p, err := harness.StartProxy(harness.ProxyCfg{L1Kind: "std"})
+	c11cfg := harness.ProxyCfg{L1Kind: "std", Race: true}
+	p, err := harness.StartProxy(c11cfg)
 	if err != nil {
 		run.Inconclusive("cannot start memproxy: " + err.Error())
 		return
@@ -278,6 +281,27 @@ func c11Server(run *evid.Run) {
 	for _, f := range c11TextForms {
 		add("text-form", false, []byte(f))
 	}
+	// quiet-get batches cut short inside a key (first and later frames), and very long batches
+	for _, q := range []string{"getq", "geteq"} {
+		op := byte(0x09)
+		if q == "geteq" {
+			op = 0x41
+		}
+		full := append(wire.BinHeader(op, 10, 0, 10, 7), []byte("0123456789")...)
+		for _, cut := range []int{24, 25, 29, 33} {
+			add("truncated-"+q, true, append([]byte(nil), full[:cut]...))
+			add("truncated-"+q, true, append(append([]byte(nil), full...), full[:cut]...))
+		}
+	}
+	for _, n := range []int{4095, 4096, 4097, 10000} {
+		var b []byte
+		for i := 0; i < n; i++ {
+			b = append(b, wire.BinHeader(0x09, 2, 0, 2, uint32(i))...)
+			b = append(b, 'k', byte('a'+i%20))
+		}
+		b = append(b, wire.BinHeader(0x0a, 0, 0, 0, 0x7777)...)
+		add(fmt.Sprintf("long-quiet-batch-%d", n), true, b)
+	}
 	control := func() string {
 		cl, err := p.Dial(0, true)
 		if err != nil {
@@ -301,7 +325,7 @@ func c11Server(run *evid.Run) {
 		in := inp.in
 		var declared uint64
 		if inp.binary || (len(in) > 0 && in[0] == 0x80) {
-			declared = parsemon.DeclaredBinary(in)
+			declared = parsemon.DeclaredBinarySeq(in)
 		} else {
 			declared = parsemon.DeclaredText(in)
 		}
@@ -374,11 +398,12 @@ func c11Server(run *evid.Run) {
 				sig = "server|connection neither answered with an error nor closed"
 			}
 			cl.Close()
-			np, err := harness.StartProxy(harness.ProxyCfg{L1Kind: "std"})
+			np, err := harness.StartProxy(c11cfg)
 			if err != nil {
 				run.Inconclusive("cannot restart memproxy")
 				return
 			}
+			c11Races(run, p)
 			p.Stop()
 			p = np
 			ownsDebug = p.OwnsDebugPort()
@@ -392,10 +417,11 @@ func c11Server(run *evid.Run) {
 			run.Violation(sig+"|"+kind, w)
 			serverViolations++
 			if !p.Alive() {
-				np, err := harness.StartProxy(harness.ProxyCfg{L1Kind: "std"})
+				np, err := harness.StartProxy(c11cfg)
 				if err != nil {
 					return
 				}
+				c11Races(run, p)
 				p.Stop()
 				p = np
 			}
@@ -411,7 +437,52 @@ func c11Server(run *evid.Run) {
 	if c := control(); c != "" {
 		run.Violation("server|"+c, map[string]interface{}{"stderr_tail": lastLines(p.Stderr(), 30)})
 	}
+	// containment: after all that malformed traffic other connections still see exactly their
+	// own replies, also when several of them work at once (shared parser state such as pooled
+	// headers must not have been poisoned)
+	// right before: a burst of requests cut short inside the key of a quiet get (an error path of
+	// the parser that handles pooled objects), on many connections
+	for i := 0; i < 300; i++ {
+		if cl, err := p.Dial(0, true); err == nil {
+			full := append(wire.BinHeader([]byte{0x09, 0x41}[i%2], 10, 0, 10, uint32(i)), []byte("0123456789")...)
+			cl.Send(full[:25+i%8])
+			cl.Close()
+		}
+	}
+	var ops int64
+	var wg sync.WaitGroup
+	fails := make(chan string, 16)
+	for c := 0; c < 16; c++ {
+		wg.Add(1)
+		go func(c int) {
+			defer wg.Done()
+			if d, _ := c14Conn(p, true, 0, c, run.Pick(250, 800), run.Seed()*977+int64(c), &ops, 40); d != "" {
+				fails <- d
+			}
+		}(c)
+	}
+	wg.Wait()
+	close(fails)
+	run.Count("concurrent_control_commands", ops)
+	for d := range fails {
+		if !p.Alive() {
+			run.Violation("server|process exited while serving well-formed traffic after malformed input: "+crashKind(p.Stderr()), map[string]interface{}{"stderr_tail": lastLines(p.Stderr(), 40)})
+		} else {
+			run.Violation("server|after malformed input a well-behaved connection sees wrong replies: "+d, map[string]interface{}{"difference": d})
+		}
+		break
+	}
+	c11Races(run, p)
 	run.Sample(map[string]interface{}{"class": "server", "inputs_sent": len(inputs)})
+}
+
+// c11Races reports race-detector findings of the memproxy that received the malformed input.
+func c11Races(run *evid.Run, p *harness.Proxy) {
+	for _, r := range parseRaces(p.RaceReports()) {
+		if r.InRend {
+			run.Violation("server|data race after malformed input: "+r.Pair, map[string]interface{}{"report": r.Text})
+		}
+	}
 }
 
 // c11Fuzz runs Go's native coverage-guided fuzzer over both parsers with the same monitors.
